@@ -81,10 +81,26 @@ impl InlineCache {
             let Some(prototype) = shape.prototype() else {
                 return;
             };
-            Some(WeakShape::from(prototype.borrow().shape()))
+            Some(prototype.borrow().shape().clone())
         } else {
             None
         };
+
+        // The lookup that produced `slot` may have run a getter or a setter, which can change the
+        // shape of the object that holds the property: only cache a slot that still describes
+        // the property in the shape it is cached for.
+        let holder_shape = prototype_shape.as_ref().unwrap_or(shape);
+        let descriptor_bits = !SlotAttributes::INLINE_CACHE_BITS;
+        let still_valid = holder_shape
+            .lookup(&self.name.clone().into())
+            .is_some_and(|current| {
+                current.index == slot.index
+                    && current.attributes & descriptor_bits == slot.attributes & descriptor_bits
+            });
+        if !still_valid {
+            return;
+        }
+        let prototype_shape = prototype_shape.as_ref().map(WeakShape::from);
 
         let mut entries = self.entries.borrow_mut();
 
